@@ -394,6 +394,9 @@ def effective_case(case):
     for b in case['blocks']:
         dropped, _, fatal = scan_block(case, b['prog'])
         new['blocks'].append(dict(b, prog=strip(b['prog'], set() if fatal else dropped)))
+    left = [l for b in new['blocks'] for l in assigned_targets(b['prog'])]
+    new['undriven'] = [l for l in case['targets'] if l not in left]    # every |= to them was rejected
+    new['targets'] = [l for l in case['targets'] if l in left]
     return new
 
 
@@ -1374,9 +1377,23 @@ def process_case(ctx, case, rng, jobs, seed_key=None):
             ctx.spec_violation('caller-defaults-dict-mutated',
                                'the dict passed as defaults= had %d entries before the blocks and %d after' % (
                                    len(ns['D_ids']), len(now)), rep)
+    undriven = [l for l in case.get('undriven', []) if l[0] != 'm']
+    if ok and undriven:
+        # every |= to these targets was rejected and caught: the design that remains leaves them undriven
+        try:
+            pyrtl.Simulation(tracer=pyrtl.SimulationTrace())
+            refused = False
+        except pyrtl.PyrtlError:
+            refused = True
+        ctx.count('target_with_every_assignment_rejected', 'design refused by sanity check' if refused else 'SIMULABLE')
+        if not refused:
+            ctx.spec_violation('undriven-target-simulable',
+                               '%s has no accepted assignment left, yet the design simulates' % ', '.join(map(wname, undriven)), rep)
     steps = []
     job.update(steps=[], rows=[], init_regs={}, init_mems={})
-    if ok and case['targets']:
+    if ok and undriven:
+        pass
+    elif ok and case['targets']:
         small = case['origin'].startswith('enum')
         steps, init_regs, init_mems = make_stimulus(rng, case, rounds=2, cap=(16 if small else None))
         try:
@@ -1421,7 +1438,7 @@ def process_case(ctx, case, rng, jobs, seed_key=None):
                 job['struct_error'] = str(e)
     # Coq evaluation: one expression per block
     csteps = []
-    if ok and case['targets']:
+    if ok and case['targets'] and not undriven:
         for k, (rho, raw) in enumerate(steps):
             rv = [0] * 2
             for l in case['targets']:
@@ -1753,7 +1770,12 @@ def run(ctx):
     for case in gen_cases(ctx):
         if prng.random() < 0.08:
             run_poison(ctx, prng.randrange(len(POISON)))
-        process_case(ctx, case, ctx.sub_rng('stim', n), jobs, seed_key=(ctx.seed, 'shrink', n))
+        try:
+            process_case(ctx, case, ctx.sub_rng('stim', n), jobs, seed_key=(ctx.seed, 'shrink', n))
+        except Exception:  # noqa  -- a harness fault on one case is reported, the other cases still run
+            ctx.model_mismatch('harness error while processing case %d (%s): %s' % (
+                n, case.get('origin'), traceback.format_exc()[-600:]), {'source': emit_source(case)})
+            pyrtl.reset_working_block()
         n += 1
     for k in range(len(POISON)):
         run_poison(ctx, k)
@@ -1778,7 +1800,11 @@ def run(ctx):
     pos = 0
     for j in jobs:
         nb = len(j['exprs'])
-        check_job(ctx, j, results[pos:pos + nb])
+        try:
+            check_job(ctx, j, results[pos:pos + nb])
+        except Exception:  # noqa
+            ctx.model_mismatch('harness error while checking a case (%s): %s' % (
+                j['case'].get('origin'), traceback.format_exc()[-600:]), j['rep'])
         pos += nb
 
 
